@@ -397,10 +397,13 @@ def shrink(case, cfg, rundir, predicate_sig, extra_defs=(), tag="", budget=40, p
         return d if d and predicate_sig(d) else None
 
     best = case
+    t_start = time.time()
     bestd = fails(case)
     if not bestd:
         return case, None
     steps = 0
+    if time.time() - t_start > 30:
+        budget = 6          # a single run of this case takes long (large dictionary): shrink only a little
     # ops after the failing one are irrelevant
     k = bestd["op_index"]
     if k < len(best[5]):
@@ -411,10 +414,10 @@ def shrink(case, cfg, rundir, predicate_sig, extra_defs=(), tag="", budget=40, p
             best, bestd = c2, d
     for field in (4, 5):
         chunk = max(1, len(best[field]) // 2)
-        while chunk >= 1 and steps < budget:
+        while chunk >= 1 and steps < budget and time.time() - t_start < 240:
             i = 0
             progressed = False
-            while i < len(best[field]) and steps < budget:
+            while i < len(best[field]) and steps < budget and time.time() - t_start < 240:
                 items = best[field]
                 cand_items = items[:i] + items[i + chunk:]
                 if field == 4 and not cand_items:
